@@ -89,6 +89,10 @@ class DefGen:
                     t = self.typeexpr(max(1, self.max_depth - 1))
                 if not t["name"]:
                     t["name"] = self.ident(k)
+                # the name spaces are separate: now and then a name that another kind already uses
+                other = [n for kk, n in self.env if kk != k and (k, n) not in self.env]
+                if other and self.rng.random() < 0.35:
+                    t["name"] = self.rng.choice(other)
                 decls.append({"d": "type", "t": t})
                 self.env.append((k, t["name"]))
             if self.rng.random() < 0.15:
